@@ -380,7 +380,7 @@ def check_tautomers(ctx, m, src, cfg, rng, numbering):
             ctx.violation('operation-raises/enumerate_tautomers/%s' % type(e).__name__, '%s (renumbered): %r' % (src, e), {'smiles': src, 'op': 'enumerate_tautomers'})
             return
         if len(seen) <= 60 and len(other) <= 60 and set(seen) != other:
-            if SY.has_equivalent_substituents(m) or SY.symmetric_cage(m):
+            if SY.has_equivalent_substituents(m) or SY.symmetric_cage(m) or SY.symmetric_bridged_polycycle(m):
                 ctx.exclude('canonical-string-gap', {'smiles': src})
             else:
                 ctx.count('tautomers.set-differs-under-renumbering')   # enumeration is cut by `limit` heuristics: counted, not judged
